@@ -1,5 +1,8 @@
 // src/runtime/ops/aggregate.rs
-use std::{collections::HashMap, vec::IntoIter};
+use std::{
+    collections::{HashMap, HashSet},
+    vec::IntoIter,
+};
 
 use crate::{
     runtime::{ExecutionStats, Executor, RuntimeError, RuntimeResult, eval::ExpressionEvaluator},
@@ -137,6 +140,8 @@ struct GroupBucket {
     key: Vec<DataType>,
     /// One accumulator per aggregate expression.
     accumulators: Vec<Accumulator>,
+    /// For `AGG(DISTINCT expr)`: the values already fed to the accumulator (`None` for plain aggregates).
+    seen: Vec<Option<HashSet<DataType>>>,
 }
 
 impl GroupBucket {
@@ -146,6 +151,10 @@ impl GroupBucket {
             accumulators: aggregates
                 .iter()
                 .map(|agg| Accumulator::new(&agg.func))
+                .collect(),
+            seen: aggregates
+                .iter()
+                .map(|agg| if agg.distinct { Some(HashSet::new()) } else { None })
                 .collect(),
         }
     }
@@ -232,6 +241,12 @@ impl<Child: Executor> HashAggregate<Child> {
                 && matches!(value, DataType::Null)
             {
                 continue;
+            }
+            // AGG(DISTINCT expr): every distinct non-NULL value counts once
+            if let Some(seen) = bucket.seen[i].as_mut() {
+                if matches!(value, DataType::Null) || !seen.insert(value.clone()) {
+                    continue;
+                }
             }
             bucket.accumulators[i].accumulate(&value)?;
         }
